@@ -107,6 +107,9 @@ func init() {
 				s := SynthSpec{N: Pick(r, []int{254, 255, 256, 300, 510, 511, 600, 800, 1021}), NCols: r.Range(2, 4), Seed: r.Uint64()}
 				if r.Chance(0.4) {
 					s.Groups = r.Range(1, 3)
+					if r.Chance(0.5) {
+						s.Groups, s.PrefixGroups = r.Range(2, 7), true
+					}
 				}
 				p.Synth = &s
 				cols, pk, _ = s.Build()
